@@ -33,4 +33,17 @@ ChainMultiHop(o, tmIn, live) ==
         /\ LET t2 == tmIn[t] IN
            \/ o.nodes[t].doc # o.nodes[k].doc
            \/ (t2 # 0 /\ o.nodes[t2].doc # o.nodes[t].doc)
+\* KF-ID-RELDIR-CYCLE (schema_loader.go setSchemaID + expander.go expandSchema).  A schema
+\* whose id is a relative directory ("sub/") re-scopes the base path to <base dir>/sub/...;
+\* a reference cycle through that schema re-enters it with the new base, registers
+\* <base dir>/sub/sub/... and so on: every turn has a new canonical ref, the cycle test never
+\* fires and the expansion never returns.
+IdReldirOnCycle(o) ==
+  LET n == Len(o.abstract)
+      succ(m) == IF o.abstract[m].t = "ref" THEN (IF o.abstract[m].to = 0 THEN {} ELSE {o.abstract[m].to})
+                 ELSE {k \in 1..n : o.abstract[k].owner = m}
+      reach1(S) == S \cup UNION {succ(m) : m \in S}
+      reach(m) == reach1(reach1(reach1(reach1(reach1(reach1(succ(m)))))))
+  IN  \E m \in 1..n : /\ "idc" \in DOMAIN o.abstract[m] /\ o.abstract[m].idc = "reldir"
+                       /\ m \in reach(m)
 =============================================================================
